@@ -52,6 +52,11 @@ func (e *histEngine) step1(r *rng, k int, prev, prevAny func() MalType, tainted 
 				call1("quote", HashMap{Val: map[string]MalType{}}), call1("rest", vc(1)),
 			}[r.intn(10)]
 		}
+		if r.chance(1, 8) {
+			// CODE held as data: a quoted program with library-macro calls nested inside (evaluating it later must not
+			// rewrite it)
+			return call1("quote", ls(sy("list"), 1, ls(sy("cond"), false, 1, true, ls(sy("or"), nil, 42)), ls(sy("and"), 1, ls(sy("->"), 2, ls(sy("+"), 1)))))
+		}
 		switch r.intn(8) {
 		case 0:
 			if r.chance(1, 2) {
@@ -78,7 +83,14 @@ func (e *histEngine) step1(r *rng, k int, prev, prevAny func() MalType, tainted 
 		}
 	}
 	lit := func() MalType { return 10 + r.intn(80) }
-	switch r.intn(27) {
+	switch r.intn(29) {
+	case 27, 28:
+		// a held value EVALUATED as a program (an error for most data; for quoted code the macro calls inside are expanded
+		// on the way — into fresh forms, never into the held list)
+		if r.chance(1, 2) {
+			return call1("eval", prev())
+		}
+		return ls(sy("let"), vc(sy("held"), HashMap{Val: map[string]MalType{kw("prog"): prev()}}), call1("list", call1("eval", call1("get", sy("held"), kw("prog"))), sy("held")))
 	case 25, 26:
 		// closures created in successive iterations of a tail-recursive loop each keep the parameters of THEIR iteration
 		// (the loop's frames are values captured by closures: a frame reused for the next iteration would change them)
@@ -231,3 +243,70 @@ func (e *histEngine) run(payload string) string {
 func (e *histEngine) classify(payload, obs string) string {
 	return "steps=" + string(rune('0'+min(strings.Count(payload, " || ")/3, 9))) + "x3"
 }
+
+// engine "keptargs" (C02): the argument list a VARIADIC update function received on an earlier attempt of a retried
+// swap! (or of an earlier call made by map / apply / update) is a value like any other: later attempts / calls do not
+// change it.  The evaluator model applies a swap!'s function once (the retry of lib/concurrent is modelled in
+// Conc.lean, not in the sequential evaluator), so this is a harness-side oracle with the expected value written out.
+type keptArgsEngine struct{}
+
+func init() { register("keptargs", &keptArgsEngine{}) }
+
+func (e *keptArgsEngine) leanName() string { return "nomodel" }
+
+var keptArgsCases = []struct{ src, want string }{
+	// the update function changes the atom itself once: exactly one retry; both attempts' rest lists are kept
+	{`(let [a (atom 0) kept (atom [])]
+	    (swap! a (fn [& all] (swap! kept conj all) (if (< (count (deref kept)) 2) (reset! a 100)) (first all)) :x [1 2])
+	    (list (deref kept) (deref a)))`, `([(0 :x [1 2]) (100 :x [1 2])] 100)`},
+	{`(let [a (atom 5) kept (atom [])]
+	    (swap! a (fn [cur & more] (swap! kept conj more) (if (< (count (deref kept)) 3) (reset! a (+ cur 1))) (+ cur (first more))) 10 20)
+	    (list (deref kept) (deref a)))`, `([(10 20) (10 20) (10 20)] 17)`},
+	{`(let [a (atom 0) seen (atom [])]
+	    (swap! a (fn [& all] (swap! seen conj (fn [] all)) (if (< (count (deref seen)) 2) (reset! a 7)) 1))
+	    (map (fn [g] (g)) (deref seen)))`, `((0) (7))`},
+	{`(let [kept (atom [])] (map (fn [& xs] (swap! kept conj xs) (count (deref kept))) [:a :b :c]) (deref kept))`, `[(:a) (:b) (:c)]`},
+	{`(let [kept (atom [])] (update {:k 1} :k (fn [& xs] (swap! kept conj xs) 2)) (update {:k 3} :k (fn [& xs] (swap! kept conj xs) 4)) (deref kept))`, `[(1) (3)]`},
+	{`(let [kept (atom [])] (apply (fn [& xs] (swap! kept conj xs)) [1 2]) (apply (fn [& xs] (swap! kept conj xs)) [3]) (deref kept))`, `[(1 2) (3)]`},
+}
+
+func (e *keptArgsEngine) generate(r *rng, n int, tier string, emit func(string)) {
+	for i := range keptArgsCases {
+		emit("case=" + string(rune('0'+i)))
+	}
+}
+
+func (e *keptArgsEngine) run(payload string) string {
+	i := int(payload[len(payload)-1] - '0')
+	if !strings.HasPrefix(payload, "case=") || i < 0 || i >= len(keptArgsCases) {
+		return "bad-case"
+	}
+	ec := &evalCase{}
+	env, err := freshEnv(ec)
+	if err != nil {
+		return "setup-error"
+	}
+	ast, err := lisp.READ(keptArgsCases[i].src, nil, env)
+	if err != nil {
+		return "setup-error"
+	}
+	want, err := lisp.READ(keptArgsCases[i].want, nil, env)
+	if err != nil {
+		return "setup-error"
+	}
+	got := "BLOCKED"
+	within(concWatchdog*2, func() {
+		v, err := lisp.EVAL(context.Background(), ast, env)
+		if err != nil {
+			got = "err " + oneLine(err.Error())
+		} else {
+			got = render(v)
+		}
+	})
+	if got != render(want) {
+		return "differs\t!an argument list kept from an earlier attempt / call changed afterwards: got " + got + " expected " + render(want)
+	}
+	return "ok"
+}
+
+func (e *keptArgsEngine) classify(payload, obs string) string { return strings.SplitN(obs, "\t", 2)[0] }
